@@ -74,6 +74,7 @@ PROP = {
     "gen": [gen_eph],
     "streams": [
         {"name": "c06.days", "args_thorough": ["all"]},   # every civil day -> (term, day index)
+        {"name": "c06.inc", "model": False},              # the spacing clause evaluated on the implementation, all 239,976 adjacent pairs
         {"name": "c06.next", "args_thorough": ["all"]},   # stepping from every (year, index), construction with wrapped indices
     ],
     "ops": c06_ops,
